@@ -1,4 +1,4 @@
-// fmtcat catalog 6: std types nested two deep, user types inside containers, wide mixes
+// fmtcat catalog 6: std types nested two deep
 #include "fmtcat.h"
 
 namespace fmtcat
@@ -6,7 +6,6 @@ namespace fmtcat
 std::vector<ShapeEntry> shapes_6()
 {
   using Str = std::string;
-  static char const* const kDirectNested = "fmtcat.direct_codec_nested_quoted";
   return {
     FMTCAT_SHAPE_W("vector_vector_int", 4, V<std::vector<std::vector<int>>>),
     FMTCAT_SHAPE_W("vector_vector_string", 4, V<std::vector<std::vector<Str>>>),
@@ -16,24 +15,14 @@ std::vector<ShapeEntry> shapes_6()
     FMTCAT_SHAPE_W("tuple_int_string_vector_double", 4, V<std::tuple<int, Str, std::vector<double>>>),
     FMTCAT_SHAPE("vector_pair_int_string", V<std::vector<std::pair<int, Str>>>),
     FMTCAT_SHAPE("map_int_optional_string", V<std::map<int, std::optional<Str>>>),
+    FMTCAT_SHAPE("map_string_map_int_string", V<std::map<Str, std::map<int, Str>>>),
+    FMTCAT_SHAPE("optional_optional_int", V<std::optional<std::optional<int>>>),
+    FMTCAT_SHAPE("optional_vector_string", V<std::optional<std::vector<Str>>>),
+    FMTCAT_SHAPE("tuple_pair_tuple", V<std::tuple<std::pair<int, Str>, std::tuple<Str, double>>>),
     FMTCAT_SHAPE("array_vector_string_2", V<std::array<std::vector<Str>, 2>>),
     FMTCAT_SHAPE("list_deque_int", V<std::list<std::deque<int>>>),
     FMTCAT_SHAPE_W("flist_flist_int", 4, V<std::forward_list<std::forward_list<int>>>),
     FMTCAT_SHAPE_W("vector_flist_string", 4, V<std::vector<std::forward_list<Str>>>),
-    FMTCAT_SHAPE("deque_array_int_3", V<std::deque<std::array<int, 3>>>),
-    FMTCAT_SHAPE("set_pair_int_string", V<std::set<std::pair<int, Str>>>),
-    FMTCAT_SHAPE("unordered_map_string_vector_int", V<std::unordered_map<Str, std::vector<int>>>),
-    FMTCAT_SHAPE("vector_rich_user", V<std::vector<RichUser>>),
-    FMTCAT_SHAPE("vector_pod_user", V<std::vector<PodUser>>),
-    FMTCAT_SHAPE("optional_rich_user", V<std::optional<RichUser>>),
-    FMTCAT_SHAPE("array_wide_user_2", V<std::array<WideUser, 2>>),
-    FMTCAT_SHAPE("vector_chrono_seconds", V<std::vector<std::chrono::seconds>>),
-    FMTCAT_SHAPE("pair_vector_map", V<std::pair<std::vector<int>, std::map<Str, int>>>),
-    FMTCAT_SHAPE_K("vector_direct_user", kDirectNested, V<std::vector<DirectUser>>),
-    FMTCAT_SHAPE_K("optional_direct_user", kDirectNested, V<std::optional<DirectUser>>),
-    FMTCAT_SHAPE_K("tuple_direct_user_int", kDirectNested, V<std::tuple<DirectUser, int>>),
-    FMTCAT_SHAPE_W("mix_nested_wide", 6, V<std::vector<Str>>, CStr, V<std::map<Str, int>>, V<Str>, V<std::optional<Str>>,
-                   V<std::forward_list<Str>>, CArr<8>, V<std::vector<std::vector<int>>>),
   };
 }
 } // namespace fmtcat
